@@ -122,6 +122,12 @@ mutant("aggregate_memoises_regions", "C20", FF,
        "ffunc_sum memoises its sums region per cube: a retry after an interrupt starts from the aborted call's arrays")
 
 
+mutant("fire_and_forget", "C16_C20", CC,
+       "                    pool.map(fill_one_cube_in_pool, self.product())\n",
+       "                    for subcube_dims in self.product():\n                        pool.apply_async(fill_one_cube_in_pool, (subcube_dims,))\n",
+       "pooled ccube submits the sub-cubes with apply_async and never waits for them")
+
+
 SECOND_SITES = {
     # name -> extra (path, old, new) applied in the same patch
     "symmetric_header_swap": [(IO,
@@ -136,7 +142,7 @@ SECOND_SITES = {
 def main():
     os.makedirs(OUT, exist_ok=True)
     keep = {"c16_ccube_slice_on_self.patch", "c16_xcube_shared_coord_buffer.patch", "c20_swallow_interrupt.patch",
-            "c17_ffunc_sum_no_copy.patch", "c16_c20_fire_and_forget.patch", "c06_revert_F2.patch"}
+            "c17_ffunc_sum_no_copy.patch", "c06_revert_F2.patch"}
     scratch = tempfile.mkdtemp(prefix="mkmut-", dir="/dev/shm")
     failed = 0
     try:
